@@ -767,10 +767,10 @@ class CompilerPassGenerateCode(CompilerPass):
         test_data = test_node._ndata
 
         if test_data.is_constant:
-            if test_data.constant_value:
-                emit_else = negate_test
+            if bool(test_data.constant_value) != negate_test:
+                emit_else = False
             else:
-                emit_if = negate_test
+                emit_if = False
         elif isinstance(test_node, nodes.Compare):
             left = self.compile_node(test_node.left)
             right = self.compile_node(test_node.ops[0][1])
